@@ -6,10 +6,10 @@ LEVEL = "model_checking"
 
 
 def run(ctx, res):
-    res.rules_run += ["C12.upper/C12.lower (P(o) = R(o) for the three lenient valuations: language, outputs, code map, errors)",
+    res.rules_run += ["C12.upper/C12.lower (P(o) = R(o) for the three lenient valuations: language, outputs, code map, errors; deviations that the strict parser shows identically are left to C01/C02/C05/C07, deviations of one mode only are reported)",
                       "C12.flow (the two flags are read only inside the string scanner)",
                       "C12.default (Options::default() = strict() = both false; flexible() = both true)"]
-    parsercheck.apply(ctx, res, ["C0", "E2."], strict_only=False, lenient_only=True)
+    parsercheck.apply(ctx, res, ["C0", "E2."], strict_only=False, lenient_only=True, relative=True)
     flow(ctx, res)
     defaults(ctx, res)
 
